@@ -52,7 +52,7 @@ def _equiv_job(job):
         rl = core.litof(r) if not isinstance(r, (bool, np.bool_)) else int(bool(r))
         same = land_all([_in_span(XA, ZA, [XB[q][j] for q in range(n)], [ZB[q][j] for q in range(n)]) for j in range(n)])
         ctx.prove("is_equivalent_mod_phase is true exactly when both generate the same group up to signs", leq(rl, same))
-        return {"n": n}
+        return {"n": n, "answer": bool(rl == 1) if rl in (0, 1) else None}
     res = explore(fn)
     for v in res.violations[:3]:
         XA, ZA = spec.sym_tableau(n, prefix="a")
@@ -61,25 +61,11 @@ def _equiv_job(job):
         Rb, Sb = spec.env_tableau(XB, ZB, v["model"])
         cands.append(dict(kind="equiv", n=n, RA=Ra, SA=Sa, RB=Rb, SB=Sb, label=v["label"]))
     res.violations = []
+    leaves = res.leaves
     res.leaves = res.leaves[:1]
-    # reachability twin: both answers are possible
-    def twin():
-        ctx = Ctx.cur
-        XA, ZA = spec.sym_tableau(n, prefix="a")
-        XB, ZB = spec.sym_tableau(n, prefix="b")
-        ctx.assume(spec.valid(XA, ZA))
-        ctx.assume(spec.valid(XB, ZB))
-        for name, val in preset:
-            ctx.assume(var(name) if val else var(name) ^ 1)
-        if not ctx.feasible():
-            return {"empty": True}
-        A = spec.make_stabilizer(st, *spec.to_symarrays(XA, ZA), poison_phases=True)
-        B = spec.make_stabilizer(st, *spec.to_symarrays(XB, ZB), poison_phases=True)
-        r = A.is_equivalent_mod_phase(B)
-        ctx.prove("twin-true", core.litof(r))
-        ctx.prove("twin-false", core.litof(r) ^ 1)
-    tw = explore(twin, max_paths=1)
-    return dict(res=res.to_json(), cands=cands, twin=(len(tw.violations) == 2 or bool(tw.leaves and tw.leaves[0] and tw.leaves[0].get("empty"))))
+    answers = set(l.get("answer") for l in leaves if l)
+    empty = any(l.get("empty_partition") for l in leaves if l)
+    return dict(res=res.to_json(), cands=cands, twin=(answers >= {True, False}) or empty)
 
 
 def _expand_job(n):
